@@ -4,7 +4,7 @@ use crate::util::*;
 
 pub fn gen(tier: &str, seed: u64, emit: &mut dyn FnMut(String)) {
     let mut rng = Rng::new(seed ^ 0xC02);
-    let n = if tier == "thorough" { 30000 } else { 1200 };
+    let n = if tier == "thorough" { 12000 } else { 1200 };
     for i in 0..n {
         let nprog = 1 + (i % 4) as usize;
         let (m, t, _p) = valid_stream(&mut rng, nprog, 1 + (i % 5) as usize, i % 3 != 0);
